@@ -28,9 +28,9 @@ var directConstraints = []string{">=v1.0.0", ">=v1.1.0", digestA, digestB, "not-
 
 // resolveBody is part 4: PackageDependencyManager.Resolve (production wiring:
 // MapDag) for the revision of slot 0 against a lock shaped like the graph.
-func resolveBody(r *explore.Run, rep *report.R, sc string, n, row0, nCons int) {
+func resolveBody(r *explore.Run, rep *report.R, sc string, n int, fixed []int, nCons int) {
 	vmap.Order = nil
-	g := chooseRows(r, n, row0) // slot 0: the revision's own dependencies (always "present")
+	g := chooseRows(r, n, fixed...) // slot 0: the revision's own dependencies (always "present")
 	selfInLock := r.Free(2, "self-in-lock(yes,no)") == 0
 	cons := map[int]string{}
 	var direct []int
@@ -196,7 +196,7 @@ func resolveBody(r *explore.Run, rep *report.R, sc string, n, row0, nCons int) {
 	if len(direct) > 0 {
 		nt = report.Hash("resolve", g.String(), selfInLock, fmt.Sprint(cons))
 	}
-	rep.Eval(sc, report.Hash("resolve", found, installed, invalid, err != nil), nt)
+	evalCase(rep, sc, report.Hash("resolve", found, installed, invalid, err != nil), nt)
 	if nt != "" && g.edges() >= 3 && invalid > 0 && wantSample(rep, "resolve") {
 		rep.Sample(map[string]any{"part": "resolve", "graph": g.String(), "self_in_lock": selfInLock, "constraints": fmt.Sprint(cons), "found": found, "installed": installed, "invalid": invalid, "error": fmt.Sprint(err), "choices": append([]int{}, r.Choices...), "scenario": sc})
 	}
@@ -235,5 +235,5 @@ func inactiveBody(r *explore.Run, rep *report.R, sc string) {
 	if f != 0 || i != 0 || v != 0 || err != nil || len(s.Log) != 0 {
 		r.Failf("resolve/inactive", "inactive revision, graph %s: found=%d installed=%d invalid=%d err=%v writes=%d", g, f, i, v, err, len(s.Log))
 	}
-	rep.Eval(sc, report.Hash("inactive", f, i, v), "")
+	evalCase(rep, sc, report.Hash("inactive", f, i, v), "")
 }
